@@ -394,3 +394,41 @@ more("C07",
           "filters are probed along every chunk edge down to tiles much smaller than a map cell; pixel centres on chunk seams must be filled.",
      note="UnionNoFalseNegative (BBoxFilter), SeamsCovered / SeamIsLocalTie (Chunks) checked by TLC. The chunk sampler left seam pixel centres unfilled (repaired, 8ef389e). "
           "Fits-tiler route at start level 3, 2 images in quick.")
+
+
+# ---- fourth round of independently seeded changes
+more("C01",
+     text="The walk is also reached through its main callers, cascade_images(tile_filter=...) and Builder.cascade, over a directory with a leaf tile at every position; the parents "
+          "written must be exactly TLC's operation set, serially and with two workers under the scheduler.")
+more("C04",
+     text="The Pyramid objects of both coordinate systems (plain, filtered, sub-pyramid, sub-pyramid of a filtered one) are all constructed first and enumerated afterwards, newest "
+          "first and oldest first, through the generator and through visit_leaves.")
+more("C05",
+     text="A pixel lookup inside the tile (the library's other user of the grid) precedes the request for the grid.")
+more("C12",
+     text="One interior lookup in three goes to depth 18-26; points on the meridians bounding the level-1 quadrants are also given with the last bit of the longitude either way and, "
+          "on the prime meridian, as tiny negative residues (-5e-324, -1e-17).")
+more("C13",
+     text="Each case starts by asking pos_children as a user would and then consuming the returned lists (the caller owns them).")
+more("C19",
+     text="Fault flavours (plain / unpicklable / signal / OSError with and without errno) rotate so that every entry point meets every flavour; the fake process maps sys.exit(None / n / "
+          "message) to exit status 0 / n / 1 as multiprocessing does; single-fault walks also run at depth 3, where the survivors have more ready tiles than the done queue holds.")
+more("C18",
+     text="Crash is realised both as a hard process death (publish() in a forked child that os._exit()s at the crash point - before, after k source bytes of, or after a transfer; no "
+          "handler of the code under test runs; the parent inspects approved/, published/ and the store; the re-run happens in another process) and as an unwinding BaseException; "
+          "whenever a faulty run leaves the spec, one fault-free re-run is executed and must complete the job.",
+     note="Temporary files left in the store by killed runs are counted, not judged.")
+more("C10",
+     text="In the ToastSampler route, concurrent contributions range over the coverage classes (every pixel, part, or nothing defined) on fresh and existing tiles, in every combination; "
+          "in the thread layer all interleavings of each pair are explored, in real processes the jobs meet inside the sampler.",
+     note="Opt-in `--foreign-job` scenario (not part of the registered check): a MultiTanProcessor.tile() job finishing on the same pyramid sweeps the lock files (clean_lockfiles) "
+          "while another job's updater holds one - outside the property's quantifier (the updaters' own steps), described in DESIGN 9.")
+more("C08",
+     text="One StudyTiling object is reused for images of every mode in several orders (directly and via Builder.prepare / execute_study_tiling) with dtype and values compared exactly "
+          "(theorem ModeHistoriesOK, sticky-buffer variant refuted). Sizes over the whole integer range (2^k + d, d in -1..1, k to 44 / 46, incl. 2^29, 2^31, 2^39) are covered "
+          "symbolically: TLC proves SymAgrees (symbolic geometry = concrete operators) for every pair with k <= 29 and emits sign / exponent tables for the rest; the real "
+          "StudyTiling's depth, offsets, first / last pixel slots, count and first rectangles are compared without instantiating an image.",
+     note="Beyond 32 bits the expected values rest on the symbolic operators being the ones TLC validated for k <= 29.")
+more("C09",
+     text="Inputs are delivered as separate files and as several HDUs of one multi-extension file (same path listed per HDU, mixed); undefined pixels are encoded as NaN or as a declared "
+          "blank value (0, 0.0, -999, 2^100; SimpleFitsCollection(blankval) and `toasty view --blankval / --hdu-index`).")
